@@ -34,6 +34,11 @@ func (it *Iterator) M__iter__() (Object, error) {
 
 // Get next one from the iteration
 func (it *Iterator) M__next__() (res Object, err error) {
+	// Seq is cleared when the iterator is exhausted so that it
+	// stays exhausted
+	if it.Seq == nil {
+		return nil, StopIteration
+	}
 	if tuple, ok := it.Seq.(Tuple); ok {
 		if it.Pos >= len(tuple) {
 			return nil, StopIteration
@@ -49,7 +54,8 @@ func (it *Iterator) M__next__() (res Object, err error) {
 		return nil, ExceptionNewf(TypeError, "'%s' object is not iterable", it.Type().Name)
 	}
 	if err != nil {
-		if IsException(IndexError, err) {
+		if IsException(IndexError, err) || IsException(StopIteration, err) {
+			it.Seq = nil
 			return nil, StopIteration
 		}
 		return nil, err
